@@ -50,3 +50,39 @@ fn replay_c18_key_round_trip() {
         assert_eq!(SecretKey::decode_base64(&s.encode_base64()).unwrap().0.to_vec(), sk.to_vec());
     }
 }
+
+/// Batch verification accepts exactly when every member verifies individually (C18) - for every batch size incl. 0 and 1,
+/// every position of a corrupted member, and batches in which one signer occurs several times.
+#[test]
+fn replay_c18_batch_agrees_with_individual() {
+    let mut rng = StdRng::seed_from_u64(seed());
+    let keys: Vec<(PublicKey, SecretKey)> = (0..4).map(|_| generate_keypair(&mut rng)).collect();
+    let mut d = [0u8; 32];
+    rng.fill_bytes(&mut d);
+    let digest = Digest(d);
+    let mut other = [0u8; 32];
+    rng.fill_bytes(&mut other);
+    let other_digest = Digest(other);
+    let mut failures = Vec::new();
+    for size in 0..6usize {
+        for corrupt in 0..=size {            // corrupt == size: no corrupted member
+            for repeat in 0..2 {
+                let mut batch: Vec<(PublicKey, Signature)> = Vec::new();
+                for i in 0..size {
+                    let who = if repeat == 1 { i % 2 } else { i % 4 };       // repeat == 1: signers occur several times
+                    let (pk, sk) = &keys[who];
+                    let sig = if i == corrupt { Signature::new(&other_digest, sk) } else { Signature::new(&digest, sk) };
+                    batch.push((*pk, sig));
+                }
+                let individually = batch.iter().all(|(pk, sig)| sig.verify(&digest, pk).is_ok());
+                let batched = Signature::verify_batch(&digest, &batch).is_ok();
+                if individually != batched {
+                    failures.push(format!("batch of {} (signers {}), corrupted member at position {}: verify_batch={} but individual verification={}",
+                        size, if repeat == 1 { "repeating" } else { "distinct" }, if corrupt == size { "none".to_string() } else { corrupt.to_string() }, batched, individually));
+                }
+            }
+        }
+    }
+    for f in failures.iter().take(4) { println!("FAILING-INPUT property=C18 {}", f); }
+    assert!(failures.is_empty(), "{} disagreeing batches", failures.len());
+}
